@@ -547,6 +547,9 @@ cgsitrf(superlu_options_t *options, SuperMatrix *A, int relax, int panel_size,
                     cs_mult(&drop_sum, &drop_sum, omega);
 		}
 		if (usepr) pivrow = iperm_r[jj];
+		/* an entirely zero column: same rule as in the relaxed-snode branch,
+		   otherwise the replacement pivot amax*fill_tol would be zero */
+		if (amax[jj - jcol] == 0.0) amax[jj - jcol] = fill_ini;
 		fill_tol = pow(fill_ini, 1.0 - (double)jj / (double)min_mn);
 		if ( (*info = ilu_cpivotL(jj, diag_pivot_thresh, &usepr, perm_r,
 					  iperm_c[jj], swap, iswap,
